@@ -202,6 +202,7 @@ func (env *Env) eval(x Expr) (*Val, error) {
 	case *EOld:
 		n := *env
 		n.st = env.old
+		n.fr = nil // the entry state knows parameters (their entry values) but no locals
 		return n.eval(x.X)
 	case *EUn:
 		v, err := env.eval(x.X)
@@ -312,6 +313,7 @@ func (env *Env) eval(x Expr) (*Val, error) {
 			qnames = append(qnames, name)
 			n.vars[qv.Name] = &Val{T: gt, L: []Sc{{name, sort}}}
 		}
+		mark := len(e.out)
 		nq := len(e.qbound)
 		for _, v := range x.Vars {
 			e.qbound = append(e.qbound, n.vars[v.Name].L[0].T)
@@ -323,6 +325,36 @@ func (env *Env) eval(x Expr) (*Val, error) {
 		if err != nil {
 			return nil, err
 		}
+		// side facts emitted while evaluating the body (typing facts of memory reads, facts of pure calls) may mention
+		// the bound variables: they hold for every value of them, so they are universally closed here
+		seenFact := map[string]bool{}
+		kept := e.out[:mark]
+		for i := mark; i < len(e.out); i++ {
+			ln := e.out[i]
+			if strings.HasPrefix(ln, "(assert ") {
+				// (facts that mention a bound variable were universally closed by Enc.assert)
+				// the same fact is produced once per occurrence of a sub-expression, and again by every other
+				// quantifier over the same sub-expression: keep one copy (bound variable names normalised)
+				if strings.HasPrefix(ln, "(assert (forall ") {
+					key := ln
+					for bi, qv := range x.Vars {
+						key = strings.ReplaceAll(key, n.vars[qv.Name].L[0].T, fmt.Sprintf("?%d", bi))
+					}
+					if seenFact[key] || (e.closedFacts[key] && e.dry == 0) {
+						continue
+					}
+					seenFact[key] = true
+					if e.dry == 0 {
+						if e.closedFacts == nil {
+							e.closedFacts = map[string]bool{}
+						}
+						e.closedFacts[key] = true
+					}
+				}
+			}
+			kept = append(kept, ln)
+		}
+		e.out = kept
 		q := "exists"
 		if x.Forall {
 			q = "forall"
@@ -354,11 +386,43 @@ func isPointer(t types.Type) bool {
 
 func (env *Env) evalIdent(name string) (*Val, error) {
 	e := env.e
+	if env.fr != nil {
+		// inside a function body (loop invariants, call-site assertions) a parameter that the body reassigns denotes its
+		// CURRENT value: the phi node carrying the variable's name; old(x) is the entry value
+		if _, isParam := env.vars[name]; isParam {
+			var found *Val
+			n := 0
+			for _, b := range env.fr.fn.Blocks {
+				for _, in := range b.Instrs {
+					if phi, ok := in.(*ssa.Phi); ok && phi.Comment == name {
+						if v, ok := env.fr.vals[phi]; ok {
+							found = v
+							n++
+						}
+					}
+				}
+			}
+			if n == 1 {
+				return found, nil
+			}
+			if n > 1 {
+				if v := env.lookupSSA(name); v != nil {
+					return v, nil
+				}
+			}
+		}
+	}
 	if v, ok := env.vars[name]; ok {
 		return v, nil
 	}
 	if name == "nil" {
 		return mathVal("0", "Int"), nil
+	}
+	if name == "visited" && env.fr != nil && env.loop != nil {
+		if v := env.lookupSSA(name); v != nil {
+			return v, nil
+		}
+		return env.visitedSet(0)
 	}
 	if env.fr != nil {
 		if v := env.lookupSSA(name); v != nil {
@@ -451,6 +515,9 @@ func (env *Env) lookupSSA(name string) *Val {
 		for _, in := range b.Instrs {
 			if d, ok := in.(*ssa.DebugRef); ok {
 				if id, ok := d.Expr.(*ast.Ident); ok && id.Name == name {
+					if fv, ok := d.Object().(*types.Var); ok && fv.IsField() {
+						continue // the field name of a selector expression x.name, not a variable called name
+					}
 					if d.IsAddr {
 						addrOf = d.X
 						continue
@@ -466,6 +533,16 @@ func (env *Env) lookupSSA(name string) *Val {
 	if addrOf != nil {
 		if p, ok := fr.vals[addrOf]; ok {
 			return e.loadLoc(env.st, e.ptrLoc(p))
+		}
+	}
+	// a variable that lives in memory (address taken / captured by a closure): its current value is the cell's content
+	for _, b := range fr.fn.Blocks {
+		for _, in := range b.Instrs {
+			if a, ok := in.(*ssa.Alloc); ok && a.Comment == name {
+				if p, ok := fr.vals[a]; ok {
+					return e.loadLoc(env.st, e.ptrLoc(p))
+				}
+			}
 		}
 	}
 	if len(cands) == 1 {
@@ -635,6 +712,14 @@ func (env *Env) evalSel(x *ESel) (*Val, error) {
 			}
 		}
 	}
+	// s[i].f / s[i].f.g on a slice of structs: load only the selected field (loading the whole element would emit the
+	// typing facts of every leaf of the struct)
+	if loc := env.elemFieldLoc(x); loc != nil {
+		if loc.Kind == 'A' {
+			return e.loadArray(env.st, loc), nil
+		}
+		return e.loadLoc(env.st, loc), nil
+	}
 	v, err := env.eval(x.X)
 	if err != nil {
 		return nil, err
@@ -686,6 +771,58 @@ func (env *Env) evalSel(x *ESel) (*Val, error) {
 	return nil, fmt.Errorf("cannot select %s from %s", x.Name, typeStr(v.T))
 }
 
+// elemFieldLoc: the location of x = s[i].f1...fn when s is a slice whose elements are transparent structs (nil otherwise).
+func (env *Env) elemFieldLoc(x *ESel) *Loc {
+	e := env.e
+	var names []string
+	var cur Expr = x
+	for {
+		sel, ok := cur.(*ESel)
+		if !ok {
+			break
+		}
+		names = append([]string{sel.Name}, names...)
+		cur = sel.X
+	}
+	ix, ok := cur.(*EIndex)
+	if !ok {
+		return nil
+	}
+	a, err := env.eval(ix.X)
+	if err != nil || a.T == nil || len(a.L) != 4 {
+		return nil
+	}
+	sl, ok := a.T.Underlying().(*types.Slice)
+	if !ok {
+		return nil
+	}
+	if _, opq := e.TI.opaqueSort(sl.Elem()); opq {
+		return nil
+	}
+	t := sl.Elem()
+	path := ""
+	for _, n := range names {
+		stt, ok := t.Underlying().(*types.Struct)
+		if !ok {
+			return nil
+		}
+		if _, opq := e.TI.opaqueSort(t); opq {
+			return nil
+		}
+		p, ft, ok := findField(stt, n)
+		if !ok {
+			return nil
+		}
+		path += p
+		t = ft
+	}
+	i, err := env.eval(ix.I)
+	if err != nil || len(i.L) != 1 || i.L[0].S != "Int" {
+		return nil
+	}
+	return &Loc{Kind: 'S', Key: typeStr(sl.Elem()), Ref: a.L[0].T, Idx: e.elemIdx(a.L[1].T, i.L[0].T), Path: path, T: t}
+}
+
 // valExpr wraps an already evaluated value as an expression.
 type valExpr struct{ v *Val }
 
@@ -726,7 +863,7 @@ func (env *Env) evalIndex(x *EIndex) (*Val, error) {
 		switch u := a.T.Underlying().(type) {
 		case *types.Slice:
 			if len(a.L) == 4 {
-				loc := &Loc{Kind: 'S', Key: typeStr(u.Elem()), Ref: a.L[0].T, Idx: addT(a.L[1].T, it), T: u.Elem()}
+				loc := &Loc{Kind: 'S', Key: typeStr(u.Elem()), Ref: a.L[0].T, Idx: e.elemIdx(a.L[1].T, it), T: u.Elem()}
 				return e.loadLoc(env.st, loc), nil
 			}
 		case *types.Map:
@@ -741,7 +878,10 @@ func (env *Env) evalIndex(x *EIndex) (*Val, error) {
 				for _, lf := range vleaves {
 					k, s := mapValKey(a.T, lf, ksort)
 					h := e.heapGet(env.st, k, s)
-					out.L = append(out.L, Sc{ite(present, "(select (select "+h+" "+a.L[0].T+") "+it+")", e.zero(lf.Sort)), lf.Sort})
+					t := "(select (select " + h + " " + a.L[0].T + ") " + it + ")"
+					e.typeAssume(env.st, lf, t)
+					e.entryRefFact(k, s, lf, a.L[0].T, it)
+					out.L = append(out.L, Sc{ite(present, t, e.zero(lf.Sort)), lf.Sort})
 				}
 				return out, nil
 			}
@@ -914,6 +1054,12 @@ func (env *Env) evalCall(x *ECall) (*Val, error) {
 					return e.bytesOf(env.st, v)
 				}
 			}
+		case "visited":
+			if env.fr != nil && len(x.Args) == 1 {
+				if n, ok := x.Args[0].(*ENum); ok && n.V.IsInt64() {
+					return env.visitedSet(int(n.V.Int64()))
+				}
+			}
 		case "content":
 			// abstraction of the content of any slice value in the current state (generalises bytes()): an
 			// uninterpreted function of the backing arrays, offset and length -> one scalar of sort Content
@@ -925,6 +1071,42 @@ func (env *Env) evalCall(x *ECall) (*Val, error) {
 					}
 					return e.contentOf(env.st, v)
 				}
+			}
+		case "viewEq", "viewEqOld":
+			// viewEq(l1, l2): every layered ghost variable has the same content at layers l1 and l2 (current state);
+			// viewEqOld(l1, l2): content at l1 now == content at l2 in the pre-state
+			if len(x.Args) == 2 {
+				l1, err := env.evalInt(x.Args[0])
+				if err != nil {
+					return nil, err
+				}
+				oenv := env
+				if id.Name == "viewEqOld" {
+					n := *env
+					n.st = env.old
+					oenv = &n
+				}
+				l2, err := oenv.evalInt(x.Args[1])
+				if err != nil {
+					return nil, err
+				}
+				var cs []string
+				for _, gn := range e.DB.Layered {
+					g, ok := e.DB.GhostVars[gn]
+					if !ok {
+						continue // declared in a package that is not part of this load
+					}
+					a, err := env.ghostVarTerm(g, env.st)
+					if err != nil {
+						return nil, err
+					}
+					b, err := env.ghostVarTerm(g, oenv.st)
+					if err != nil {
+						return nil, err
+					}
+					cs = append(cs, eq("(select "+a.L[0].T+" "+l1+")", "(select "+b.L[0].T+" "+l2+")"))
+				}
+				return mathVal(and(cs...), "Bool"), nil
 			}
 		case "zero":
 			if len(x.Args) == 1 {
@@ -1100,6 +1282,24 @@ func (env *Env) callGhost(g *GhostFunc, args []Expr) (*Val, error) {
 	if len(args) != len(g.Params) {
 		return nil, fmt.Errorf("ghost %s takes %d arguments", g.Name, len(g.Params))
 	}
+	if g.Macro {
+		if env.depth > 8 {
+			return nil, fmt.Errorf("ghost macro %s: expansion too deep (recursive?)", g.Name)
+		}
+		m := &Env{e: e, vars: map[string]*Val{}, st: env.st, old: env.old, pkgPath: g.PkgPath, imports: g.Imports, depth: env.depth + 1}
+		for i, a := range args {
+			v, err := env.eval(a)
+			if err != nil {
+				return nil, err
+			}
+			m.vars[g.Params[i].Name] = v
+		}
+		r, err := m.eval(g.Body)
+		if err != nil {
+			return nil, fmt.Errorf("ghost macro %s: %v", g.Name, err)
+		}
+		return r, nil
+	}
 	name, rsort, err := e.ghostSymbol(g)
 	if err != nil {
 		return nil, err
@@ -1189,6 +1389,20 @@ func (env *Env) havocTarget(st *State, x Expr) error {
 			e.havocAll(st)
 			return nil
 		}
+		if _, shadow := env.vars[x.Name]; x.Name == "views" && !shadow {
+			// views: every layered ghost variable, at every layer
+			for _, gn := range e.DB.Layered {
+				if g, ok := e.DB.GhostVars[gn]; ok {
+					sort, _, err := e.resolveTypeExpr(g.T, g.PkgPath, g.Imports)
+					if err != nil {
+						return err
+					}
+					e.heapGet(st, "G|"+g.Name, sort)
+					e.heapHavoc(st, "G|"+g.Name)
+				}
+			}
+			return nil
+		}
 		if g, ok := e.DB.GhostVars[x.Name]; ok {
 			sort, _, err := e.resolveTypeExpr(g.T, g.PkgPath, g.Imports)
 			if err != nil {
@@ -1226,7 +1440,7 @@ func (env *Env) havocTarget(st *State, x Expr) error {
 				if err != nil {
 					return err
 				}
-				loc := &Loc{Kind: 'S', Key: typeStr(u.Elem()), Ref: a.L[0].T, Idx: addT(a.L[1].T, i), T: u.Elem()}
+				loc := &Loc{Kind: 'S', Key: typeStr(u.Elem()), Ref: a.L[0].T, Idx: e.elemIdx(a.L[1].T, i), T: u.Elem()}
 				e.storeLoc(st, loc, e.freshVal(st, "hv", u.Elem()))
 				return nil
 			}
@@ -1306,6 +1520,29 @@ func (env *Env) havocTarget(st *State, x Expr) error {
 					}
 					return nil
 				}
+			case "view":
+				// view(l): the content of every layered ghost variable at layer l
+				l, err := env.evalInt(x.Args[0])
+				if err != nil {
+					return err
+				}
+				for _, gn := range e.DB.Layered {
+					g, ok := e.DB.GhostVars[gn]
+					if !ok {
+						continue
+					}
+					sort, _, err := e.resolveTypeExpr(g.T, g.PkgPath, g.Imports)
+					if err != nil {
+						return err
+					}
+					cur := e.heapGet(st, "G|"+g.Name, sort)
+					nt, err := storePath(e, cur, sort, []string{l})
+					if err != nil {
+						return err
+					}
+					e.heapSet(st, "G|"+g.Name, sort, nt)
+				}
+				return nil
 			case "contents":
 				v, err := env.eval(x.Args[0])
 				if err != nil {
